@@ -12,7 +12,7 @@ import (
 var alphaEscape = []string{"a", " ", "\n", "?", "\xe2", "\x80", "\xb9", "\xba", "\xc3", "\x97"}
 var alphaMarkers = []string{"‹", "›", "×", "\n", "a", "\xe2", "\x80", "\xb9", "\xba"}
 var piecesHostile = []string{"a", "b", " ", "\n", "\n\n", "‹", "›", "×", "‹×›", "\xe2", "\x80", "\xb9", "\xba",
-	"\xe2\x80", "é", "?", "\xc3", "☃", "\xf0\x9f\x9b", "%", "0", "x"}
+	"\xe2\x80", "é", "?", "\xc3", "☃", "\xf0\x9f\x9b", "%", "0", "x", "\r\n", "\r"}
 
 func recoverStr(f func() string) (out string) {
 	defer func() {
